@@ -138,6 +138,17 @@ func (ms *Modules) resolveIdentities() []error {
 
 	var errs []error
 
+	// Start from scratch: the dictionary and the value lists left by an
+	// earlier run reflect the modules that were loaded then.
+	ms.typeDict.identities.dict = map[string]resolvedIdentity{}
+	for _, mods := range []map[string]*Module{ms.Modules, ms.SubModules} {
+		for _, mod := range mods {
+			for _, i := range mod.Identities() {
+				i.Values = nil
+			}
+		}
+	}
+
 	// Across all modules, read the identity values that have been extracted
 	// from them, and compile them into a "fully resolved" map that means that
 	// we can look them up based on the 'real' prefix of the module and the
